@@ -171,7 +171,9 @@ def evaluate_c03(plan: dict, runs: list, ctl):
         drv = RefDriver(w, h["boot"])
         n = drv.mdp.n
         nb = len(V.v)
+        g0 = V.probes.get("guard_band_inconclusive", 0)
         refine(V, prop, drv, run, 0, run.boots[0]["state"], check_stop=True)
+        ambiguous = V.probes.get("guard_band_inconclusive", 0) > g0
         for v in V.v[nb:]:
             v["msg"] = f"{tag} shape={h['boot']['shape']}: " + v["msg"]
         fin = run.finals[0]
@@ -189,6 +191,7 @@ def evaluate_c03(plan: dict, runs: list, ctl):
         summary.append(
             {
                 "mb": mb,
+                "ambiguous": ambiguous,
                 "shape": h["boot"]["shape"],
                 "end_it": int(fin["iteration"]),
                 "stops": [[c["it1"], bool(c["converged"])] for c in h["calls"]],
@@ -214,6 +217,9 @@ def evaluate_c03(plan: dict, runs: list, ctl):
 
 
 def compare_summaries(V, prop, summary, where: str):
+    summary = [x for x in summary if not x.get("ambiguous")]  # a stop decision inside the guard band
+    if len(summary) < 2:
+        return
     a = summary[0]
     for b in summary[1:]:
         ta, tb = f"(mb={a['mb']},dev={a.get('dev', '')})", f"(mb={b['mb']},dev={b.get('dev', '')})"
